@@ -1,8 +1,24 @@
 use super::scratch::DecoderScratch;
+use crate::common::MAX_BLOCK_SIZE;
 use crate::decoding::errors::ExecuteSequencesError;
 
 /// Take the provided decoder and execute the sequences stored within
 pub fn execute_sequences(scratch: &mut DecoderScratch) -> Result<(), ExecuteSequencesError> {
+    // A block regenerates all of its literals plus all of its matches.
+    // Reject it up front if that is more than a block is allowed to contain.
+    let regenerated = scratch
+        .sequences
+        .iter()
+        .fold(scratch.literals_buffer.len() as u64, |sum, seq| {
+            sum + u64::from(seq.ml)
+        });
+    if regenerated > u64::from(MAX_BLOCK_SIZE) {
+        return Err(ExecuteSequencesError::BlockTooBig {
+            regenerated: regenerated as usize,
+            max: MAX_BLOCK_SIZE as usize,
+        });
+    }
+
     let mut literals_copy_counter = 0;
     let old_buffer_size = scratch.buffer.len();
     let mut seq_sum = 0;
